@@ -106,7 +106,13 @@ def _sf_event(c):
             def table(a, centering):
                 sf = StructureFactor(a, g_max=g_max, centering=centering, **kw)
                 arr = sf.build(lazy=False)
-                return sf, np.asarray(arr.hkl), np.asarray(arr.array)
+                first = (np.asarray(arr.hkl).copy(), np.asarray(arr.array).copy())
+                arr2 = sf.build(lazy=False)                    # the same builder object asked a second time
+                if np.asarray(arr2.array).shape != first[1].shape or not np.array_equal(np.asarray(arr2.array), first[1]) \
+                        or not np.array_equal(np.asarray(arr.array), first[1]):
+                    ev["translation_ppb"] = max(ev["translation_ppb"], 2_000_000_000)     # reported with the "same crystal, same table" clause
+                    ev["second_build_differs"] = True
+                return sf, first[0], first[1]
             # all reflections (centering "P" switches the filter off) to see what the forbidden ones hold
             sfP, hkl, F = table(atoms, "P")
             scale = float(np.abs(F).max())
@@ -133,7 +139,7 @@ def _sf_event(c):
             moved = atoms.copy()
             moved.positions += atoms.cell.array[0] * 1 + atoms.cell.array[1] * (-2) + atoms.cell.array[2] * 1
             _, hkl2, F2 = table(moved, "P")
-            ev["translation_ppb"] = ppb(float(np.abs(F2 - F).max()) / scale) if F2.shape == F.shape else 2 * 10 ** 9
+            ev["translation_ppb"] = max(ev["translation_ppb"], ppb(float(np.abs(F2 - F).max()) / scale) if F2.shape == F.shape else 2 * 10 ** 9)
             pot = np.asarray(sfP.get_potential_3d(lazy=False)) if "lazy" in sfP.get_potential_3d.__code__.co_varnames else np.asarray(sfP.get_potential_3d())
             pot = np.asarray(pot.compute()) if hasattr(pot, "compute") else pot
             if np.iscomplexobj(pot):
